@@ -37,7 +37,7 @@ func init() {
 			"and spelled at random (implicit/explicit root, decimal/hex/octal and negative integers, both quote styles, simple/\\x/octal/\\u/\\U escapes, raw UTF-8), evaluated on the message it was drawn from, a fresh random message, the empty message and a copy with the addressed element deleted; " +
 			"(neighbour) the same with one type-breaking edit of the structure (index dropped/added, literal of the wrong kind or out of the key range, map-entry field, unknown/foreign field, negative/huge index); " +
 			"(soup) token soups, random bytes, mutated valid texts and long inputs - whatever parses is evaluated and compared with a typed walk of the returned protopath; " +
-			"(render) InspectPayload/InspectSignature/InspectMask, MaskOptions.Mask and the CLI 'inspect payload|signature|mask' (in-process, in-memory IO) for bin/hex/base64/auto(terminal and not) over byte strings of boundary lengths. " +
+			"(render) InspectPayload/InspectSignature/InspectMask, MaskOptions.Mask and the CLI 'inspect payload|signature|mask' (in-process, in-memory IO) for bin/hex/base64/auto(terminal and not) over byte strings of boundary lengths, plus sequences of 3-6 such calls on ONE *Inspect (in one context) or *MaskOptions whose writer the caller swaps between terminal and non-terminal (every step judged like a single call; the options' Form must be unchanged afterwards). " +
 			"Oracle: the reference walk (pathref.Walk) says present(value)/absent/unwalkable; a parse error is always allowed (counted); after a successful parse the evaluation must return exactly the walked value (every intermediate value too) when present and an error otherwise; no panic, no call that fails to return (200 s CPU backstop), allocation <= 64 MiB + 4 KiB/byte per call; " +
 			"bin output equals the field bytes, hex/base64 output decodes (encoding/hex, RFC 4648 standard alphabet) to exactly the field bytes. " +
 			"non-trivial = a path that parsed and was evaluated (or a rendering that was produced); distinct = (family, root type, step-kind shape with map key kinds, kind of the addressed value, expected status, outcome) and (entry, form, length class) cells",
@@ -85,6 +85,7 @@ type checker struct {
 	cliOK        int
 	neighbourEv  int
 	notedRejects int
+	reusedSwitch int
 }
 
 func threadUserCPU() time.Duration {
@@ -718,6 +719,7 @@ func run(c *core.Ctx) {
 	c.Floor("absent-elements-gave-errors", k.absentErr > 0)
 	c.Floor("field-after-map-index-evaluated", k.mapThenF > 0)
 	c.Floor("neighbour-paths-evaluated", k.neighbourEv > 0)
+	c.Floor("reused-options-auto-steps-on-a-file-after-a-terminal", k.reusedSwitch > 0)
 	c.Floor("soup-some-parsed", k.soupParsed > 0)
 	c.Floor("soup-some-rejected", k.soupReject > 0)
 	for _, f := range renderForms {
